@@ -487,6 +487,42 @@ PROPS = {
         trusted=["float parsing of decimal64 default literals via the float oracle"],
         partial="c33_valid only under defaults_ok (c33_valid_partial); refuted: c33_refuted_two_cases, c33_refuted_one_case, c33_refuted_container_in_case; presence containers are instantiated.",
     ),
+    "C10": dict(
+        level="proof",
+        technique="Coq proof (structural address of a gNMI path; frame theorem for set_rec by induction on the fuel through the three list loops; GetNode reads the address) + differential correspondence check",
+        claim="For every schema/tree satisfying swfb/root_okb and every leaf or leaf-list path with complete canonical keys (addr_of defined): a successful SetNode (any InitMissingElements setting; "
+              "scalar TypedValue, JSON_IETF or leaflist_val) leaves exactly the decoded value at the structural address of the path, GetNode returns exactly one node with it "
+              "(c10_get_after_set_partial/_json_partial/_leaflist_partial, c10_set_general_partial, c10_get_reads_address), every subtree not on the spine is unchanged or is a key leaf of an entry "
+              "created on the way holding a key named in the path (c10_frame, c10_frame_leaf_at), the guard is preserved, hence sequences of sets (c10_history_partial, c10_history_last_partial: last "
+              "write wins). Totality: c10_get_total (GetNode never panics, no hypothesis), c10_no_panic (SetNode with a non-JSON payload panics only on a NaN decimal64 key string; c10_panic_nan_witness).",
+        note="Trusted: Coq kernel; hand transcription of ytypes/node.go (Tree/Node.v) tied by the 'nodeops' stream; Go maps as sorted association lists; float/key oracle tables. Leaf-level claims are "
+             "about structural paths (sub_at / MergeJson.leaf_at), not Leaves.leaves.",
+        coq_files=["Tree/Node", "Tree/KeyCodec", "Tree/Leaves", "Tree/GnmiStatements", "Tree/NodeExamples", "Tree/NodeFrameProofs", "Tree/NodeProofs", "Tree/NodeTotalProofs", "Corr/GnmiCorr"],
+        streams=[dict(name="nodeops", n=N(900, 8000))],
+        signatures=["setnode/", "getnode/", "gnmi/empty-type", "union/wrapper-binary-unsettable", "panic"],
+        trusted=["schema translator and tree printer (tree.go)", "float and key oracle tables produced by the harness"],
+        partial="Guards: swfb (schema), root_okb (tree: struct order, kinds, key leaves = map key, keys read back from their strings, canonical entry order), addr_of (complete canonical keys, "
+                "non-shadow tags, target not a key leaf), s_shadow = s_ignore_extra = false. The candidate GnmiStatements.c10_get_after_set is refuted (c10_refuted_noncanonical_key: key \"07\"; the "
+                "reported Path has sorted keys); c10_refuted_failed_set_mutates (failed SetNode with InitMissingElements leaves entries behind). Not proved: the link structural path <-> Leaves.leaves "
+                "paths, the reported gn_path (existential), success conditions (c10_set_succeeds), JSON payloads on containers, PreferShadowPath.",
+    ),
+    "C12": dict(
+        level="proof",
+        technique="Coq proof (del_rec_spec: total on addressable paths, removal, frame, pruning, identity on absent nodes, by induction on the fuel through the three list loops) + differential correspondence check",
+        claim="For every schema/tree satisfying swfb/root_okb and every container / list-entry / leaf / leaf-list path with complete canonical keys (present or absent, Go maps and ordered maps): "
+              "DeleteNode succeeds, nothing is left at or below the address and GetNode finds no data (c12_delete_removes_subtree_partial, c12_get_after_delete_partial), every subtree off the spine is "
+              "unchanged (c12_delete_frame_partial), no prunable node on the spine is left empty - containers incl. presence containers, Go maps, entries without any field; emptied ordered maps stay "
+              "(c12_no_empty_on_spine_partial, c12_presence_container_pruned), deleting an absent node with a clean spine is the identity and deleting twice = once (c12_delete_absent_noop_partial, "
+              "c12_delete_idempotent_partial), sequences (c12_history_partial). c12_delete_total: DeleteNode never panics (no hypothesis); c12_delete_root.",
+        note="Trusted: Coq kernel; hand transcription of ytypes/node.go tied by the 'nodeops' stream; Go maps as sorted association lists. Leaf-level claims are about structural paths (sub_at / leaf_at).",
+        coq_files=["Tree/Node", "Tree/KeyCodec", "Tree/Leaves", "Tree/GnmiStatements", "Tree/NodeExamples", "Tree/NodeFrameProofs", "Tree/NodeProofs", "Tree/NodeTotalProofs", "Corr/GnmiCorr"],
+        streams=[dict(name="nodeops", n=N(900, 8000))],
+        signatures=["deletenode/"],
+        trusted=["schema translator and tree printer (tree.go)", "key oracle tables produced by the harness"],
+        partial="Guards as for C10 (addr_of: complete canonical keys; non-canonical key strings make DeleteNode a silent no-op). c12_refuted_keyless_list_path: naming a non-empty list without keys is an "
+                "error. Deleting a key leaf (kl = true): removal and frame hold, the tree guard is lost (C16), so GetNode-after, idempotence and sequences require kl = false. PreferShadowPath only in "
+                "c12_delete_total and the example c12_shadow_path_noop. Link to Leaves.leaves not proved.",
+    ),
     "C11": dict(
         level="proof",
         technique="Coq effect model (write set of every API over the cells of its arguments, frame/sequence theorem by induction over operation lists) + snapshot correspondence (changed-cell sets EQUAL, TypedValue after SetNode equal)",
